@@ -166,6 +166,31 @@ func (eng *Engine) effectsEntropy(props []string) []*Obligation {
 	return out
 }
 
+// effectsRawDraw: C01/C04 - every choice a generator makes goes through the bounded draw: the raw 32-bit word
+// (randomUint32) is consumed by randomUint32n only, so no function can derive a choice from a raw word (bits of
+// it, v % n, ...) behind the back of the rejection sampling whose uniformity is proved.
+func (eng *Engine) effectsRawDraw(props []string) []*Obligation {
+	var out []*Obligation
+	for _, fn := range eng.allFuncs("spg") {
+		if eng.isHookFunc(fn) {
+			continue
+		}
+		key := eng.fnKey(fn)
+		var bad []string
+		for _, b := range fn.Blocks {
+			for _, in := range b.Instrs {
+				for _, op := range in.Operands(nil) {
+					if f, ok := (*op).(*ssa.Function); ok && eng.fnKey(f) == "spg.randomUint32" && key != "spg.randomUint32n" {
+						bad = append(bad, "uses the raw random word (randomUint32) outside randomUint32n")
+					}
+				}
+			}
+		}
+		out = append(out, effOb(key, "effects", "raw-draw", props, len(bad) == 0, strings.Join(bad, "; ")))
+	}
+	return out
+}
+
 // effectsNoRecover: nobody can turn a fail-closed panic into a normal return.
 func (eng *Engine) effectsNoRecover(props []string) []*Obligation {
 	var out []*Obligation
@@ -497,6 +522,24 @@ func (eng *Engine) secrecy(props []string) []*Obligation {
 								if l&secretBit != 0 {
 									s.viol = append(s.viol, "value derived from a random draw reaches "+nm)
 								}
+								// "diagnostics contain counts and probabilities only": whatever its origin, a non-constant
+								// string (or any other non-numeric value) handed to an output function is a violation
+								for _, a := range c.Args {
+									if isWriterArg(a) {
+										continue
+									}
+									if _, isSl := a.Type().Underlying().(*types.Slice); isSl {
+										for _, e := range variadicElems(a) {
+											if !countOrProbability(e) {
+												s.viol = append(s.viol, "diagnostic written with "+nm+" contains a value of type "+elemTypeString(e)+", not a count or probability")
+											}
+										}
+										continue
+									}
+									if !countOrProbability(a) {
+										s.viol = append(s.viol, "diagnostic written with "+nm+" contains a value of type "+elemTypeString(a)+", not a count or probability")
+									}
+								}
 								if pl := l &^ secretBit; s.sinkPars|pl != s.sinkPars {
 									s.sinkPars |= pl
 									changed = true
@@ -601,6 +644,44 @@ func (eng *Engine) secrecy(props []string) []*Obligation {
 // variadicLabels: labels of the elements of a variadic argument slice. The compiler builds it
 // as `new [n]T (varargs)`, stores into its elements and slices it: those stores are read directly
 // (the package-wide label of the element heap would make every formatted message look secret).
+// variadicElems: the values stored into a compiler-built variadic argument slice (nil if a is not one).
+func variadicElems(a ssa.Value) []ssa.Value {
+	sl, ok := a.(*ssa.Slice)
+	if !ok {
+		return nil
+	}
+	al, ok := sl.X.(*ssa.Alloc)
+	if !ok {
+		return nil
+	}
+	var out []ssa.Value
+	for _, b := range al.Parent().Blocks {
+		for _, in := range b.Instrs {
+			if st, ok := in.(*ssa.Store); ok {
+				if ia, ok := st.Addr.(*ssa.IndexAddr); ok && ia.X == ssa.Value(al) {
+					out = append(out, st.Val)
+				}
+			}
+		}
+	}
+	return out
+}
+
+// countOrProbability: is the value something a diagnostic may print according to the property - a number, a
+// boolean or a constant string (format / fixed message)?
+func countOrProbability(v ssa.Value) bool {
+	if mi, ok := v.(*ssa.MakeInterface); ok {
+		v = mi.X
+	}
+	if _, ok := v.(*ssa.Const); ok {
+		return true
+	}
+	if b, ok := v.Type().Underlying().(*types.Basic); ok {
+		return b.Info()&(types.IsNumeric|types.IsBoolean) != 0
+	}
+	return false
+}
+
 func variadicLabels(a ssa.Value, get func(ssa.Value) labels, fallback labels) labels {
 	sl, ok := a.(*ssa.Slice)
 	if !ok {
@@ -624,4 +705,16 @@ func variadicLabels(a ssa.Value, get func(ssa.Value) labels, fallback labels) la
 		}
 	}
 	return l
+}
+
+func isWriterArg(a ssa.Value) bool {
+	t := a.Type().String()
+	return t == "io.Writer" || t == "*os.File" || strings.HasSuffix(t, "log.Logger")
+}
+
+func elemTypeString(v ssa.Value) string {
+	if mi, ok := v.(*ssa.MakeInterface); ok {
+		v = mi.X
+	}
+	return v.Type().String()
 }
